@@ -167,6 +167,10 @@ PROPS["C13"] = dict(
                             bound="BOUNDED STAND-IN, native run: 0..7 parents x pc in {0,1} x insert-one/both x 4 seeds x {uniform, 2-point} crossover"),
                             "c13_native_permutation_mutations": dict(anchor="mutation components (permutation)",
                             bound="BOUNDED STAND-IN, native run: Scramble(rm 0/1), Inversion, Insertion, Translocation, Swap(2..4) x solution length 2..6 x population size 0..3 x 64 seeds"),
+                            "c13_native_de_operators": dict(anchor="DE variation components",
+                            bound="BOUNDED STAND-IN, native run: DEMutation y in {1,2} x f in {0,0.5,2} x population sizes 0..3(2y+1) x dimension 1..3; DE binomial/exponential crossover x pc in {0,0.5,1} x 0..3 pairs x 32 seeds"),
+                            "c13_native_crossover_genes": dict(anchor="crossover components",
+                            bound="BOUNDED STAND-IN, native run: Uniform/1-,2-,3-point/Arithmetic crossover x insert-one/both x 64 seeds on fixed parents; CycleCrossover on all 576 pairs of length-4 permutations"),
                             "c13_native_value_mutations": dict(anchor="mutation components (real, bit)",
                             bound="BOUNDED STAND-IN, native run: Normal/Uniform/PartialRandomSpread and BitFlip/PartialRandomBitstring x rm in {0, 0.5, 1} x dimension 1..4 x population size 0..3 x 32 seeds")})],
     min_obligations={"quick": 10, "thorough": 20},
@@ -220,7 +224,9 @@ PROPS["C10"] = dict(
     kani=[dict(files=["contracts/C10/c10.rs"])],
     native=[dict(files=["contracts/C10/c10_native.rs"],
                  harnesses={"c10_native_logical_and_optimum": dict(anchor="And::evaluate",
-                            bound="BOUNDED STAND-IN, native enumeration: And/Or over every operand vector of length 0..4 (2 evaluations each), Not(And), OptimumReached on a 3x6 grid")})],
+                            bound="BOUNDED STAND-IN, native enumeration: And/Or over every operand vector of length 0..4 (2 evaluations each), Not(And), OptimumReached on a 3x6 grid"),
+                            "c10_native_loops_and_chance": dict(anchor="Loop + LessThanN + EveryN + RandomChance (whole loops)",
+                            bound="BOUNDED STAND-IN, native run: loops bounded by n in 0..7 (passes, tests, progress per pass) x every-m for m in 1..4; RandomChance frequency over 20000 draws for 6 probabilities")})],
     min_obligations={"quick": 17, "thorough": 17},
     uncovered=["And/Or::evaluate (closure capturing &mut state: Verus rejects; Kani does not terminate)", "the VALUE of the progress written by LessThanN (float division is uninterpreted)",
                "OptimumReached", "RandomChance (probability)"],
